@@ -5,6 +5,7 @@ import (
 	"fmt"
 	"math/big"
 	mrand "math/rand/v2"
+	"verifharness/issuer"
 
 	"github.com/gmrtd/gmrtd/document"
 	"github.com/gmrtd/gmrtd/verifier"
@@ -508,13 +509,25 @@ func c02PartB(k *fw.K, i int, cs c02BCase) {
 		card.PACE.Supported = append(card.PACE.Supported, chipsim.PaceSupport{Mapping: chipsim.PaceECDHGM, Suite: ns, ParamID: o.ParamID}, chipsim.PaceSupport{Mapping: chipsim.PaceECDHGM, Suite: o.Suite, ParamID: 8 + (o.ParamID-8+3)%11})
 	case "downgrade-cardaccess":
 		if acc == perso.BACOnly {
-			if _, ok := card.LDS[chipsim.FidDG(14)]; !ok || cs.block == "partB" {
+			if _, ok := card.LDS[chipsim.FidDG(14)]; !ok {
 				k.Count(pre + "downgrade_not_applicable")
 				return
 			}
 			// a BAC-only chip (DG14 because of chip authentication): the hostile chip ADDS a
 			// CardAccess advertising PACE, which DG14 does not contain; it cannot run PACE
-			card.MF[chipsim.FidCardAccess] = der.SetUnsorted(chipsim.PaceInfoDER(chipsim.PaceOIDArcs(chipsim.PaceECDHGM, o.Suite), 2, o.ParamID))
+			paceInfo := chipsim.PaceInfoDER(chipsim.PaceOIDArcs(chipsim.PaceECDHGM, o.Suite), 2, o.ParamID)
+			// ... or a CardAccess WITHOUT any PACE info, holding a chip-authentication info (key
+			// id 123) that DG14 does not contain either, or both
+			foreign := issuer.ChipAuthInfo(int(symref.AES128), 123)
+			switch (i*7 + i/9 + i/27 + i/81) % 3 {
+			case 0:
+				card.MF[chipsim.FidCardAccess] = der.SetUnsorted(paceInfo)
+			case 1:
+				card.MF[chipsim.FidCardAccess] = der.SetUnsorted(foreign)
+				k.Count(pre + "cardaccess_added_without_any_pace_info")
+			default:
+				card.MF[chipsim.FidCardAccess] = der.SetUnsorted(foreign, paceInfo)
+			}
 			k.Count(pre + "cardaccess_added_to_bac_only_chip")
 			break
 		}
